@@ -11,6 +11,7 @@ import (
 	"encoding/binary"
 	"fmt"
 	"io"
+	"strings"
 
 	"github.com/jhalter/mobius/hotline"
 )
@@ -78,7 +79,51 @@ func init() {
 				}
 			}
 			c.Nontrivial(string(enc))
-			_ = bytes.Equal
+		}})
+		// the parser against the model on arbitrary (mutated, truncated, extended) headers
+		x.Add(&Family{Name: "ffo-decode", Quick: 1500, Thor: 40000, Run: func(c *Case) {
+			r := c.R
+			var ffo hotline.VerifFlattenedFileObject
+			ffo.FlatFileHeader = hotline.FlatFileHeader{Format: [4]byte{0x46, 0x49, 0x4c, 0x50}, Version: [2]byte{0, 1}, ForkCount: [2]byte{byte(r.Pick(0, 0, 0, 7)), byte(r.Pick(2, 3, 0, 255))}}
+			ffo.FlatFileInformationFork = genInfoFork(r)
+			ffo.FlatFileDataForkHeader = hotline.FlatFileForkHeader{ForkType: [4]byte{0x44, 0x41, 0x54, 0x41}}
+			binary.BigEndian.PutUint32(ffo.FlatFileDataForkHeader.DataSize[:], uint32(r.U64()))
+			in, _ := io.ReadAll(func() io.Reader { f := ffo; return &f }())
+			kind := r.Intn(6)
+			switch kind {
+			case 1:
+				in = mutate(r, in)
+			case 2:
+				in = in[:r.Intn(len(in)+1)]
+			case 3:
+				in = append(in, r.Bytes(r.Intn(40))...)
+			case 4: // INFO size smaller / larger than the fork that follows
+				if len(in) >= 40 {
+					binary.BigEndian.PutUint32(in[36:40], uint32(r.Pick(0, 1, 71, 72, 73, 74, 75, len(in)-56-1, len(in)-56+1, len(in)-40, len(in)-39, 65535)))
+				}
+			case 5: // name size inconsistent with the fork size
+				if len(in) >= 112 {
+					binary.BigEndian.PutUint16(in[110:112], uint16(r.Pick(0, 1, 255, 256, len(in), 65535, 65464, 65463)))
+				}
+			}
+			if len(in) >= 38 { // declared INFO size stays below 64 KiB: the parser allocates what is declared
+				in[36], in[37] = 0, 0
+			}
+			c.Dist(fmt.Sprintf("ffo-decode/kind%d", kind))
+			want := c.O.Ask("ffodec " + hx(in))
+			got := guard(func() string {
+				var g hotline.VerifFlattenedFileObject
+				if _, err := g.ReadFrom(bytes.NewReader(exact(in))); err != nil {
+					return "err"
+				}
+				return fmt.Sprintf("ok %d %s %d", binary.BigEndian.Uint16(g.FlatFileHeader.ForkCount[:]), infoArgs(&g.FlatFileInformationFork),
+					binary.BigEndian.Uint32(g.FlatFileDataForkHeader.DataSize[:]))
+			})
+			c.Dist("ffo-decode/" + strings.SplitN(got, " ", 2)[0])
+			c.Corr("flattenedFileObject.ReadFrom", got, want, false)
+			if strings.HasPrefix(got, "ok") {
+				c.Nontrivial(string(in))
+			}
 		}})
 	})
 }
